@@ -81,7 +81,7 @@ class HostileSpec(Spec):
             "additionally runs the finite tables (frame kind x header field x boundary value x stage; "
             "frame kind x byte offset x FIN/RST; ordered pairs of failure kinds) once each with a seeded "
             "schedule; every run counts as non-trivial (each contains faults); distinct = distinct event-log digest")
-    expected_probes = ("liveness_ok", "bystander_msgs_checked", "burst_300", "burst_101", "console_handler_on")
+    expected_probes = ("liveness_ok", "bystander_msgs_checked", "burst_300", "burst_101", "console_handler_on", "bystander_streams_checked")
     assumptions = ["the two stalls the manager documents as by-design (a peer that stops reading, or withholds the "
                    "rest of a frame for ever) are never generated",
                    "the TCP model of sim/net.py"]
@@ -140,7 +140,7 @@ class ClientSubSpec(Spec):
     expected_probes = ("op_subscribe", "op_pause", "op_resume", "op_sub_ctx", "op_pause_ctx", "refused_ops",
                        "ctx_overlaps_subscribed", "ctx_overlaps_paused", "op_while_sub_all", "op_reconnect",
                        "reconnect_after_loss", "twin_instance", "racing_probes_checked", "racing_probe_overtook_request",
-                       "concurrent_client_ops")
+                       "concurrent_client_ops", "manager_short_read")
     components = {"real": REAL_MANAGER + REAL_CLIENT, "stub": STUB_NET}
     assumptions = ["model-free: client and manager are compared with each other, the statement's own criterion",
                    "all connections writable during probes (a drop would be a legitimate non-delivery)"]
@@ -164,7 +164,7 @@ class IdentitySpec(Spec):
             "every live id.  non-trivial = more than one connect attempt; distinct = distinct event-log digest")
     expected_probes = ("must_accept_checked", "must_refuse_checked", "dynamic_id_checked", "wire_options_checked",
                        "client_info_checked", "dyn_burst_110", "dyn_burst_130", "dyn_burst_230", "dynamic_id_high",
-                       "client_ctor_refused", "fanout>1", "reconnect_same_client")
+                       "client_ctor_refused", "fanout>1", "reconnect_same_client", "connect_again_while_connected", "connect_with_a_racing_request", "v2_header_source_differs", "closes_judged")
     components = {"real": REAL_MANAGER + REAL_CLIENT, "stub": STUB_NET}
     assumptions = ["explicit id exactly 100 and a unique newcomer reusing the name of a multi-instance incumbent are "
                    "don't-care (statement silent, client and manager disagree today)",
@@ -190,7 +190,7 @@ class ReadPathSpec(Spec):
             "operation/outcome trace")
     expected_probes = ("read_msg", "read_none", "read_unknown", "read_invalid", "read_lost", "skipped_frames",
                        "lost_checked_fin", "lost_checked_rst", "decode_error_checked", "returned_checked",
-                       "blocking_read_fed", "decode_error_on_cut_frame", "second_session", "scratch_redefined")
+                       "blocking_read_fed", "decode_error_on_cut_frame", "second_session", "scratch_redefined", "drain_by_polling", "discard_messages_ok")
     components = {"real": REAL_CLIENT + ["pyrtma.message / header / validators / core_defs"],
                   "stub": ["socket/select/time fakes", "scripted server actor with the independent struct codec",
                            "no manager in this harness"]}
@@ -221,7 +221,7 @@ class StatsSpec(Spec):
             "non-trivial; distinct = distinct event-log digest")
     expected_probes = ("timing_reports_checked", "traffic_reports_checked", "traffic_submsgs_2", "traffic_submsgs_3",
                        "traffic_submsgs_5", "timing_empty_interval", "timing_out_of_range_types", "huge_count",
-                       "notices_counted", "timing_switched_off", "watcher_mode", "traffic_reports_after_gap_checked")
+                       "notices_counted", "timing_switched_off", "watcher_mode", "traffic_reports_after_gap_checked", "first_timing_report_checked", "real_client_pid")
     assumptions = ["'handled for forwarding' = client data frames read + manager-originated messages sent through "
                    "forwarding; ACKNOWLEDGE copies to loggers are not asserted either way",
                    "out-of-range destinations, pre-handshake frames and connection failures are not generated here"]
@@ -252,7 +252,7 @@ class DataLoggerSpec(Spec):
     expected_probes = ("checked_raw", "checked_json", "checked_quicklogger", "checked_msg_header", "subdivided_files", "empty_sequence",
                        "single_message", "lock_contended", "runs_with_flush", "runs_with_3+_flushes", "writer_busy_seen",
                        "ql_files_read", "second_recording", "dataset_replaced", "dataset_removed", "high_type_ids",
-                       "timecode_headers")
+                       "timecode_headers", "user_type_in_quicklogger", "redundant_selection", "timecode_client_in_process")
     components = {"real": ["pyrtma.data_logger.data_collection (DataCollection incl. the writer loop)",
                            "pyrtma.data_logger.data_set", "data_formatter and the raw/json/quicklogger formatters",
                            "pyrtma.data_logger.metadata", "pyrtma.utils.quicklogger_reader (QLReader)",
@@ -295,7 +295,7 @@ class ValidationSpec(Spec):
             "in quick).  non-trivial = the run contained a refusal or an in-force probe; distinct = distinct trace")
     expected_probes = ("probe_in_force", "probe_inside_block", "validation_off_inside_block", "block_exception",
                        "block_lib_exception", "nested_block", "tasks_3", "assign_set", "assign_item", "assign_slice",
-                       "assign_from", "assign_nested", "refused", "accepted", "stale_accessor_used_in_force", "line_level_mode")
+                       "assign_from", "assign_nested", "refused", "accepted", "stale_accessor_used_in_force", "line_level_mode", "api_context_runs", "twin_message_touched", "same_object_reassigned")
     components = {"real": ["pyrtma.validators (all descriptors, disable_message_validation)", "pyrtma.message_base",
                            "pyrtma.message_data"],
                   "stub": ["baton-scheduled tasks instead of OS-scheduled threads"]}
@@ -324,12 +324,12 @@ _SPECS = {}
 def _register():
     _SPECS["C01"] = PubSubSpec("C01", ("multi_ready_round", "midframe_block", "not_writable", "drop_branch",
                                        "logger_waited", "self_delivery", "invalid_dest", "fanout>1",
-                                       "write_fail"))
+                                       "write_fail", "client_api_publishes", "odd_header_fields", "closes_judged"))
     _SPECS["C05"] = PubSubSpec("C05", ("multi_ready_round", "acks_mixed_with_data", "periodic_on_stream",
                                        "notice_on_stream", "common_pairs_checked", "truncated_final_frame",
                                        "long_stream_33000", "long_stream_66000", "pre_handshake_frames"))
     _SPECS["C19"] = PubSubSpec("C19", ("handshake_checked", "acked_control_checked", "unacked_frame_checked",
-                                       "logger_copy_checked", "refused_or_ignored_connect_checked"))
+                                       "logger_copy_checked", "refused_or_ignored_connect_checked", "short_control_frame", "control_header_cut", "control_frame_with_destination"))
     s = PubSubSpec("C14", ("notices_expected", "logger_waited", "drop_branch", "write_fail", "no_logger_observer",
                            "mgr_originated_notices_expected"))
     s.level = "fault_enumeration"
